@@ -3,9 +3,10 @@ import Bmc.Lemmas.FloatModel
 
 `rnd64 x`: the binary64 value nearest to the rational `x` (ties to the even significand): with `2^e ≤ |x| < 2^(e+1)` the unit in
 the last place is `2^(e−52)` and the result is `nearestEven (x / ulp) · ulp`. The exponent is computed from the bit lengths of
-numerator and denominator and then CHECKED (`2^e ≤ |x| < 2^(e+1)`); should the check ever fail the function returns `x` itself,
-so that `rnd64_err` — relative error at most `2⁻⁵³` — holds for every rational without a proof about `Nat.log2`
-(`rnd64_checked` shows the check passing on the values the driver meets is observable: the driver reports a failed check).
+numerator and denominator, corrected by one step, and then CHECKED (`2^e ≤ |x| < 2^(e+1)`; were the check to fail the function
+would return `x` itself, which keeps `rnd64_err` — relative error at most `2⁻⁵³` — a two-line case split). `exponentOk_of_ne_zero`
+proves the check ALWAYS passes for x ≠ 0 (`bracket`: the bit lengths put |x| within a factor two of `2^e0` either way), so
+`rnd64_eq`: on every non-zero rational `rnd64` IS rounding to 53 significant bits, ties to even.
 Subnormals and overflow are outside the model: every quantity of `ConvertReading` lies between 10⁻¹⁶ and 10²³ or is 0. -/
 namespace Bmc.FloatModel
 
@@ -94,5 +95,127 @@ theorem binary64_u_small : Rounding.binary64.u ≤ 1 / 100 := by show u64 ≤ 1 
 example : rnd64 1 = 1 ∧ rnd64 (1 / 10) = 3602879701896397 / 36028797018963968 ∧ rnd64 (-3) = -3 ∧
     rnd64 (9007199254740993) = 9007199254740992 ∧ rnd64 (9007199254740995) = 9007199254740996 ∧ rnd64 0 = 0 := by decide +kernel
 example : exponentOk (1 / 10) = true ∧ exponentOk 7 = true ∧ exponentOk (1 / 100000000) = true := by decide +kernel
+
+/-! ## the exponent self-check always passes -/
+
+theorem eq_num_div_den (x : Rat) : x = (x.num : Rat) / (x.den : Rat) := by
+  have h := Rat.mkRat_eq_div x.num x.den
+  rw [Rat.mkRat_self] at h
+  simpa using h
+
+theorem den_cast_pos (x : Rat) : (0 : Rat) < (x.den : Rat) := by
+  have := x.den_pos
+  exact_mod_cast this
+
+theorem mul_den (x : Rat) : x * (x.den : Rat) = (x.num : Rat) := by
+  have h := eq_num_div_den x
+  have hd := den_cast_pos x
+  have hne : (x.den : Rat) ≠ 0 := by grind
+  generalize (x.den : Rat) = d at *
+  generalize (x.num : Rat) = n at *
+  rw [h]; grind
+
+
+theorem ab_mul_den (x : Rat) : ab x * (x.den : Rat) = (x.num.natAbs : Rat) := by
+  have h := mul_den x
+  unfold ab
+  by_cases hx : 0 ≤ x
+  · have hn : 0 ≤ x.num := Rat.num_nonneg.mpr hx
+    have e : ((x.num.natAbs : Nat) : Rat) = (x.num : Rat) := by
+      have : ((x.num.natAbs : Nat) : Int) = x.num := Int.natAbs_of_nonneg hn
+      rw [← Rat.intCast_natCast, this]
+    simp only [hx, if_true, e, h]
+  · have hn : x.num < 0 := by
+      have : ¬ 0 ≤ x.num := fun h => hx (Rat.num_nonneg.mp h)
+      omega
+    have e : ((x.num.natAbs : Nat) : Rat) = -(x.num : Rat) := by
+      have : ((x.num.natAbs : Nat) : Int) = -x.num := by omega
+      rw [← Rat.intCast_natCast, this, Rat.intCast_neg]
+    simp only [hx, if_false, e]
+    grind
+
+theorem pow2_nat (a : Nat) : pow2 (a : Int) = ((2 ^ a : Nat) : Rat) := by
+  unfold pow2; rw [Rat.zpow_natCast]; simp
+
+theorem pow2_add (m n : Int) : pow2 (m + n) = pow2 m * pow2 n := Rat.zpow_add (by decide) m n
+theorem pow2_succ (m : Int) : pow2 (m + 1) = pow2 m * 2 := by rw [pow2_add]; rfl
+
+theorem lt_of_mul_lt_mul_right {a b d : Rat} (hd : 0 < d) (h : a * d < b * d) : a < b := by
+  apply Classical.byContradiction
+  intro hn
+  have : b ≤ a := by grind
+  have := Rat.mul_le_mul_of_nonneg_right this (by grind : (0 : Rat) ≤ d)
+  grind
+
+theorem le_of_mul_le_mul_right {a b d : Rat} (hd : 0 < d) (h : a * d ≤ b * d) : a ≤ b := by
+  apply Classical.byContradiction
+  intro hn
+  have hlt : b < a := by grind
+  have : b * d < a * d := Rat.mul_lt_mul_of_pos_right hlt hd
+  grind
+
+/-- the candidate exponent brackets |x| within a factor of two either way -/
+theorem bracket (x : Rat) (hx : x ≠ 0) :
+    let e0 : Int := (Nat.log2 x.num.natAbs : Int) - (Nat.log2 x.den : Int)
+    pow2 (e0 - 1) < ab x ∧ ab x < pow2 (e0 + 1) := by
+  intro e0
+  have hn0 : x.num.natAbs ≠ 0 := by
+    have : x.num ≠ 0 := fun h => hx (Rat.num_eq_zero.mp h)
+    omega
+  have hd0 : x.den ≠ 0 := x.den_nz
+  have n1 := Nat.log2_self_le hn0
+  have n2 := @Nat.lt_log2_self x.num.natAbs
+  have d1 := Nat.log2_self_le hd0
+  have d2 := @Nat.lt_log2_self x.den
+  generalize ha : Nat.log2 x.num.natAbs = a at n1 n2 e0
+  generalize hb : Nat.log2 x.den = b at d1 d2 e0
+  have hmul := ab_mul_den x
+  have hdpos := den_cast_pos x
+  have N1 : ((2 ^ a : Nat) : Rat) ≤ (x.num.natAbs : Rat) := by exact_mod_cast n1
+  have N2 : (x.num.natAbs : Rat) < ((2 ^ (a + 1) : Nat) : Rat) := by exact_mod_cast n2
+  have D1 : ((2 ^ b : Nat) : Rat) ≤ (x.den : Rat) := by exact_mod_cast d1
+  have D2 : (x.den : Rat) < ((2 ^ (b + 1) : Nat) : Rat) := by exact_mod_cast d2
+  rw [← pow2_nat] at N1 N2 D1 D2
+  constructor
+  · apply lt_of_mul_lt_mul_right hdpos
+    rw [hmul]
+    have p := pow2_pos (e0 - 1)
+    have s : pow2 (e0 - 1) * (x.den : Rat) < pow2 (e0 - 1) * pow2 ((b + 1 : Nat) : Int) := Rat.mul_lt_mul_of_pos_left D2 p
+    have e : pow2 (e0 - 1) * pow2 ((b + 1 : Nat) : Int) = pow2 (a : Int) := by
+      rw [← pow2_add]; congr 1; simp [e0]; omega
+    grind
+  · apply lt_of_mul_lt_mul_right hdpos
+    rw [hmul]
+    have p := pow2_pos (e0 + 1)
+    have s : pow2 (e0 + 1) * pow2 (b : Int) ≤ pow2 (e0 + 1) * (x.den : Rat) := Rat.mul_le_mul_of_nonneg_left D1 (by grind)
+    have e : pow2 (e0 + 1) * pow2 (b : Int) = pow2 ((a + 1 : Nat) : Int) := by
+      rw [← pow2_add]; congr 1; simp [e0]; omega
+    grind
+
+theorem exponentOk_of_ne_zero (x : Rat) (hx : x ≠ 0) : exponentOk x = true := by
+  obtain ⟨lo, hi⟩ := bracket x hx
+  unfold exponentOk expOf
+  simp only []
+  generalize ((Nat.log2 x.num.natAbs : Nat) : Int) - ((Nat.log2 x.den : Nat) : Int) = e0 at lo hi
+  have s0 := pow2_succ e0
+  have s1 := pow2_succ (e0 - 1)
+  have e : e0 - 1 + 1 = e0 := by omega
+  rw [e] at s1
+  by_cases h1 : pow2 e0 ≤ ab x
+  · by_cases h2 : pow2 (e0 + 1) ≤ ab x
+    · exfalso; grind
+    · simp only [h1, h2, if_true, if_false, Bool.and_eq_true, decide_eq_true_eq, true_and]
+      grind
+  · simp only [h1, if_false, Bool.and_eq_true, decide_eq_true_eq]
+    constructor
+    · grind
+    · grind
+
+/-- so `rnd64` never takes its fall-back branch on a non-zero rational: it IS rounding to 53 significant bits -/
+theorem rnd64_eq (x : Rat) (hx : x ≠ 0) :
+    rnd64 x = (nearestEven (x / (pow2 (expOf x) * c52)) : Rat) * (pow2 (expOf x) * c52) := by
+  unfold rnd64
+  rw [exponentOk_of_ne_zero x hx]
+  rfl
 
 end Bmc.FloatModel
